@@ -62,13 +62,19 @@ func (pp *PushPromise) Deserialize(fr *FrameHeader) error {
 }
 
 func (pp *PushPromise) Serialize(fr *FrameHeader) {
-	fr.payload = fr.payload[:0]
+	if pp.ended {
+		fr.SetFlags(
+			fr.Flags().Add(FlagEndHeaders))
+	}
 
 	// if pp.pad {
 	// 	fr.Flags().Add(FlagPadded)
 	// 	// TODO: Write padding flag
 	// }
 
+	// the promised stream id comes before the header block fragment
+	// (RFC 7540 6.6)
+	fr.payload = http2utils.AppendUint32Bytes(fr.payload[:0], pp.stream)
 	fr.payload = append(fr.payload, pp.header...)
 	// TODO: write padding
 }
